@@ -437,6 +437,17 @@ func runC07Sequences(t *fw.T) {
 			sb.WriteString(p)
 		}
 		first := q + sb.String() + q
+		sameLine := false
+		if q != "`" && r.IntN(5) == 0 {
+			// a quoted string continued over a line end (backslash + line break); the second literal then follows on the line
+			// on which the first one ends
+			k := r.IntN(len(sb.String()) + 1)
+			first = q + sb.String()[:k] + "\\\n" + sb.String()[k:] + q
+			if strings.HasSuffix(sb.String()[:k], "\\") && !strings.HasSuffix(sb.String()[:k], "\\\\") {
+				first = q + sb.String() + "\\\n" + q // do not split an escape
+			}
+			sameLine = r.IntN(2) == 0
+		}
 		var second string
 		if r.IntN(4) > 0 {
 			sb.Reset()
@@ -453,6 +464,9 @@ func runC07Sequences(t *fw.T) {
 			between = ";\n" + between[1:] // the source writes its semicolons; the printer that omits them has to put these back
 		} else {
 			between = "\n" + between
+		}
+		if sameLine {
+			between = "; "
 		}
 		prog := "w = " + first + between + "v = " + second + ";\n[w, v, w + 1, v + 1].join(\"\\u0001\")"
 		cat := "sequence/two literals"
